@@ -1,9 +1,9 @@
 package c11
 
 import (
-	"bufio"
 	"encoding/json"
 	"fmt"
+	"math/rand/v2"
 	"os"
 	"path/filepath"
 	"strings"
@@ -35,86 +35,169 @@ func binarySessions(r *mon.Run) {
 	r.Floor("binary_sessions", int64(n))
 }
 
-func binarySession(r *mon.Run, bin string, idx int) {
-	rng := r.Rng("binary", idx)
-	home := filepath.Join(r.Work, fmt.Sprintf("bin-%d", idx))
-	logf := filepath.Join(home, "session.json")
-	os.MkdirAll(home, 0o755)
-	s, err := crs.Start(bin, home, "-listen-address", "127.0.0.1:0", "-tls-certificate-cache", "", "-log", logf)
-	if err != nil {
-		r.Inconclusive("binary did not start: " + err.Error())
-		return
+// truth is what the harness itself did to one run of the binary (ground truth
+// of the part of the session whose records are expected in a stretch of the log).
+type truth struct {
+	conns   []conn // admitted streams, in order
+	refused []conn // refused streams
+	in      []string
+	out     strings.Builder
+}
+
+// recon is a session reconstructed from log bytes alone.
+type recon struct {
+	conns, refused []conn
+	in             []string
+	out            strings.Builder
+	ndisc, lines   int
+}
+
+// parseLog decodes b strictly as a sequence of newline-terminated one-line
+// JSON objects.  bad describes the first line that is not one (empty if none).
+func parseLog(b []byte) (g *recon, bad string) {
+	g = &recon{}
+	rest := string(b)
+	for rest != "" {
+		line := rest
+		if i := strings.IndexByte(rest, '\n'); i >= 0 {
+			line = rest[:i+1]
+		}
+		rest = rest[len(line):]
+		g.lines++
+		var m map[string]any
+		dec := json.NewDecoder(strings.NewReader(line))
+		if derr := dec.Decode(&m); derr != nil || !strings.HasSuffix(line, "\n") || dec.More() {
+			return g, fmt.Sprintf("line %d is not one complete JSON object: %q", g.lines, trunc(line))
+		}
+		msg, _ := m["msg"].(string)
+		dir, _ := m["direction"].(string)
+		id := ""
+		if hr, ok := m["http_request"].(map[string]any); ok {
+			id, _ = hr["id"].(string)
+		}
+		data, _ := m["data"].(string)
+		switch {
+		case msg == "New connection":
+			g.conns = append(g.conns, conn{dir, id})
+		case msg == "Disconnected":
+			g.ndisc++
+		case msg == "Shell I/O" && dir == "input":
+			g.in = append(g.in, data)
+		case msg == "Shell I/O" && dir == "output":
+			g.out.WriteString(data)
+		case isRefusalRecord(fmt.Sprint(m["level"]), msg):
+			g.refused = append(g.refused, conn{dir, id})
+		}
 	}
-	defer s.Close()
-	var truthConns []conn     // admitted streams, in order
-	var truthRefused []conn   // refused streams
-	var truthIn []string      // lines delivered
-	var truthOut strings.Builder
-	var script []string
-	viol := func(key, what string) {
-		b, _ := os.ReadFile(logf)
-		r.Violate("binary", idx, key, what, map[string]any{"script": script, "log_file_tail": tailS(string(b), 3000), "terminal_tail": tailS(s.P.Clean(), 1500)})
+	return g, ""
+}
+
+func sameConns(a, b []conn) bool {
+	if len(a) != len(b) {
+		return false
 	}
+	ca, cb := map[conn]int{}, map[conn]int{}
+	for i := range a {
+		ca[a[i]]++
+		cb[b[i]]++
+	}
+	for k, v := range ca {
+		if cb[k] != v {
+			return false
+		}
+	}
+	return true
+}
+
+// compareRecon compares a reconstruction with ground truth.
+func compareRecon(t *truth, g *recon, viol func(key, what string)) {
+	if !sameConns(t.conns, g.conns) {
+		viol("binary-log-connections-differ", fmt.Sprintf("connections reconstructed from the log %v differ from the ones made %v", g.conns, t.conns))
+	}
+	if g.ndisc != len(g.conns) {
+		viol("binary-log-disconnects-differ", fmt.Sprintf("%d Disconnected records for %d New connection records", g.ndisc, len(g.conns)))
+	}
+	if !sameConns(t.refused, g.refused) {
+		viol("binary-log-refusals-differ", fmt.Sprintf("refusals reconstructed from the log %v differ from the ones provoked %v", g.refused, t.refused))
+	}
+	if strings.Join(g.in, "") != strings.Join(t.in, "") || len(g.in) != len(t.in) {
+		viol("binary-log-input-differs", fmt.Sprintf("input reconstructed from the log %q differs from the lines delivered %q", trunc(strings.Join(g.in, "")), trunc(strings.Join(t.in, ""))))
+	}
+	if g.out.String() != toValid(t.out.String()) {
+		viol("binary-log-output-differs", fmt.Sprintf("output reconstructed from the log %q differs from the bytes sent %q", trunc(g.out.String()), trunc(toValid(t.out.String()))))
+	}
+}
+
+// driveGens runs gens shell generations (fake shells, typed lines, output
+// chunks, refused attempts) against a running binary and records what it did
+// in t.  between, if not nil, is called before every generation and after the
+// last one (g = 0..gens) while no shell is attached; it returns false to stop.
+// The result is false if the session could not be completed (a violation or
+// an inconclusive note was already filed).
+func driveGens(r *mon.Run, s *crs.Session, rng *rand.Rand, gens int, tag string, t *truth, script *[]string, viol func(key, what string), between func(g int) bool) bool {
 	bad := false
-	gens := 1 + rng.IntN(3)
 	pos := 0
 	for g := 0; g < gens && !bad; g++ {
+		if between != nil && !between(g) {
+			return false
+		}
 		bidir := rng.IntN(3) == 0
-		id := fmt.Sprintf("g%d%s", g, []string{"abc", "A-b_c", "x.y", "0"}[rng.IntN(4)])
+		id := fmt.Sprintf("%sg%d%s", tag, g, []string{"abc", "A-b_c", "x.y", "0"}[rng.IntN(4)])
 		var in *crs.InStream
 		var out *crs.OutStream
+		var err error
 		if bidir {
 			io, err := crs.OpenIO(s.Addr)
 			if err != nil {
 				r.Inconclusive(err.Error())
-				return
+				return false
 			}
 			in, out = io.In, io.Out
-			truthConns = append(truthConns, conn{"input", ""}, conn{"output", ""})
-			script = append(script, "io shell")
+			t.conns = append(t.conns, conn{"input", ""}, conn{"output", ""})
+			*script = append(*script, "io shell")
 		} else {
 			in, err = crs.OpenIn(s.Addr, "/i/"+id)
 			if err != nil {
 				r.Inconclusive(err.Error())
-				return
+				return false
 			}
 			if _, ok := s.Wait(`Input connected`, pos, crs.Bound); !ok {
 				viol("binary-shell-does-not-attach", "no 'Input connected' notice")
-				return
+				return false
 			}
 			out, err = crs.OpenOut(s.Addr, "/o/"+id)
 			if err != nil {
 				r.Inconclusive(err.Error())
-				return
+				return false
 			}
-			truthConns = append(truthConns, conn{"input", id}, conn{"output", id})
-			script = append(script, "uni shell "+id)
+			t.conns = append(t.conns, conn{"input", id}, conn{"output", id})
+			*script = append(*script, "uni shell "+id)
 		}
 		loc, ok := s.Wait(`Shell is ready`, pos, crs.Bound)
 		if !ok {
 			viol("binary-shell-does-not-attach", "no ready notice")
-			return
+			return false
 		}
 		pos = loc[1]
 		// refused attempts while the shell is attached
 		if rng.IntN(2) == 0 {
-			rid := "dup" + fmt.Sprint(g)
+			rid := tag + "dup" + fmt.Sprint(g)
 			res, _ := hk.Get(s.Addr, "", "x", "/i/"+rid)
 			_ = res
-			truthRefused = append(truthRefused, conn{"input", rid})
-			script = append(script, "refused duplicate input "+rid)
+			t.refused = append(t.refused, conn{"input", rid})
+			*script = append(*script, "refused duplicate input "+rid)
 		}
 		if rng.IntN(2) == 0 && !bidir {
-			rid := "wrong" + fmt.Sprint(g)
+			rid := tag + "wrong" + fmt.Sprint(g)
 			hk.RoundTrip(s.Addr, "", []byte("POST /o/"+rid+" HTTP/1.1\r\nHost: x\r\nContent-Length: 3\r\nConnection: close\r\n\r\nabc"), hk.Bound)
-			truthRefused = append(truthRefused, conn{"output", rid})
-			script = append(script, "refused output "+rid)
+			t.refused = append(t.refused, conn{"output", rid})
+			*script = append(*script, "refused output "+rid)
 		}
 		// traffic
 		steps := 4 + rng.IntN(12)
 		for k := 0; k < steps && !bad; k++ {
 			if rng.IntN(2) == 0 {
-				l := fmt.Sprintf("line-%d-%d %s", g, k, []string{`"quoted"`, `back\slash`, `{"msg":"x"}`, "plain", "", "%s%d", "tab\there"}[rng.IntN(7)])
+				l := fmt.Sprintf("line-%s%d-%d %s", tag, g, k, []string{`"quoted"`, `back\slash`, `{"msg":"x"}`, "plain", "", "%s%d", "tab\there"}[rng.IntN(7)])
 				l = strings.ReplaceAll(l, "\t", " ")
 				s.Line(l)
 				got, err := in.ReadLine(crs.Bound)
@@ -123,23 +206,23 @@ func binarySession(r *mon.Run, bin string, idx int) {
 					bad = true
 					break
 				}
-				truthIn = append(truthIn, l+"\n")
+				t.in = append(t.in, l+"\n")
 			} else {
-				c := fmt.Sprintf("<out-%d-%d:%s>", g, k, []string{`"q"`, `\\`, "\xff\xfe", "\x01\x02", "{\"level\":\"INFO\"}\n", "plain", "\xe2\x82"}[rng.IntN(7)])
+				c := fmt.Sprintf("<out-%s%d-%d:%s>", tag, g, k, []string{`"q"`, `\\`, "\xff\xfe", "\x01\x02", "{\"level\":\"INFO\"}\n", "plain", "\xe2\x82"}[rng.IntN(7)])
 				if err := out.Send(c); err != nil {
 					r.Inconclusive("send failed: " + err.Error())
-					return
+					return false
 				}
-				truthOut.WriteString(c)
+				t.out.WriteString(c)
 				// wait until displayed (the visible prefix is ASCII)
-				if _, ok := s.Wait(fmt.Sprintf(`<out-%d-%d:`, g, k), 0, crs.Bound); !ok {
+				if _, ok := s.Wait(fmt.Sprintf(`<out-%s%d-%d:`, tag, g, k), 0, crs.Bound); !ok {
 					viol("binary-output-not-displayed", fmt.Sprintf("chunk %q never appeared on the terminal", c))
 					bad = true
 				}
 			}
 		}
 		if bad {
-			return
+			return false
 		}
 		// end
 		switch rng.IntN(3) {
@@ -153,105 +236,65 @@ func binarySession(r *mon.Run, bin string, idx int) {
 		loc, ok = s.Wait(`Shell is gone`, pos, crs.Bound)
 		if !ok {
 			viol("binary-shell-does-not-end", "no gone notice after the client closed")
-			return
+			return false
 		}
 		pos = loc[1]
 		in.Close()
 		out.Close()
 		time.Sleep(20 * time.Millisecond)
 	}
+	if between != nil && !between(gens) {
+		return false
+	}
+	return true
+}
+
+func binarySession(r *mon.Run, bin string, idx int) {
+	rng := r.Rng("binary", idx)
+	home := filepath.Join(r.Work, fmt.Sprintf("bin-%d", idx))
+	logf := filepath.Join(home, "session.json")
+	os.MkdirAll(home, 0o755)
+	s, err := crs.Start(bin, home, "-listen-address", "127.0.0.1:0", "-tls-certificate-cache", "", "-log", logf)
+	if err != nil {
+		r.Inconclusive("binary did not start: " + err.Error())
+		return
+	}
+	defer s.Close()
+	var t truth
+	var script []string
+	viol := func(key, what string) {
+		b, _ := os.ReadFile(logf)
+		r.Violate("binary", idx, key, what, map[string]any{"script": script, "log_file_tail": tailS(string(b), 3000), "terminal_tail": tailS(s.P.Clean(), 1500)})
+	}
+	gens := 1 + rng.IntN(3)
+	if !driveGens(r, s, rng, gens, "", &t, &script, viol, nil) {
+		return
+	}
 	st, sig, ok := s.Quit()
 	if !ok || st != 0 {
 		r.Inconclusive(fmt.Sprintf("binary did not exit cleanly (status %d signal %q exited %v)", st, sig, ok))
 	}
 	// ---- reconstruct the session from the log file alone ----
-	f, err := os.Open(logf)
+	b, err := os.ReadFile(logf)
 	if err != nil {
 		viol("log-file-missing", err.Error())
 		return
 	}
-	defer f.Close()
-	var gotConns, gotRefused []conn
-	var gotIn []string
-	var gotOut strings.Builder
-	ndisc := 0
-	sc := bufio.NewReaderSize(f, 1<<20)
-	nl := 0
-	for {
-		line, err := sc.ReadString('\n')
-		if line == "" && err != nil {
-			break
-		}
-		nl++
-		var m map[string]any
-		dec := json.NewDecoder(strings.NewReader(line))
-		if derr := dec.Decode(&m); derr != nil || !strings.HasSuffix(line, "\n") || dec.More() {
-			viol("log-line-not-json", fmt.Sprintf("line %d of the log file is not one complete JSON object: %q", nl, trunc(line)))
-			return
-		}
-		msg, _ := m["msg"].(string)
-		dir, _ := m["direction"].(string)
-		id := ""
-		if hr, ok := m["http_request"].(map[string]any); ok {
-			id, _ = hr["id"].(string)
-		}
-		data, _ := m["data"].(string)
-		switch {
-		case msg == "New connection":
-			gotConns = append(gotConns, conn{dir, id})
-		case msg == "Disconnected":
-			ndisc++
-		case msg == "Shell I/O" && dir == "input":
-			gotIn = append(gotIn, data)
-		case msg == "Shell I/O" && dir == "output":
-			gotOut.WriteString(data)
-		case isRefusalRecord(fmt.Sprint(m["level"]), msg):
-			gotRefused = append(gotRefused, conn{dir, id})
-		}
-		if err != nil {
-			break
-		}
+	g, badLine := parseLog(b)
+	if badLine != "" {
+		viol("log-line-not-json", "the log file: "+badLine)
+		return
 	}
-	r.Count("binary_log_lines", int64(nl))
-	cmpConns := func(a, b []conn) bool {
-		if len(a) != len(b) {
-			return false
-		}
-		ca, cb := map[conn]int{}, map[conn]int{}
-		for i := range a {
-			ca[a[i]]++
-			cb[b[i]]++
-		}
-		for k, v := range ca {
-			if cb[k] != v {
-				return false
-			}
-		}
-		return true
-	}
-	if !cmpConns(truthConns, gotConns) {
-		viol("binary-log-connections-differ", fmt.Sprintf("connections reconstructed from the log %v differ from the ones made %v", gotConns, truthConns))
-	}
-	if ndisc != len(gotConns) {
-		viol("binary-log-disconnects-differ", fmt.Sprintf("%d Disconnected records for %d New connection records", ndisc, len(gotConns)))
-	}
-	if !cmpConns(truthRefused, gotRefused) {
-		viol("binary-log-refusals-differ", fmt.Sprintf("refusals reconstructed from the log %v differ from the ones provoked %v", gotRefused, truthRefused))
-	}
-	if strings.Join(gotIn, "") != strings.Join(truthIn, "") || len(gotIn) != len(truthIn) {
-		viol("binary-log-input-differs", fmt.Sprintf("input reconstructed from the log %q differs from the lines delivered %q", trunc(strings.Join(gotIn, "")), trunc(strings.Join(truthIn, ""))))
-	}
-	if gotOut.String() != toValid(truthOut.String()) {
-		viol("binary-log-output-differs", fmt.Sprintf("output reconstructed from the log %q differs from the bytes sent %q", trunc(gotOut.String()), trunc(toValid(truthOut.String()))))
-	}
+	r.Count("binary_log_lines", int64(g.lines))
+	compareRecon(&t, g, viol)
 	r.Eval(1)
 	r.Count("binary_sessions", 1)
-	r.Count("binary_connections", int64(len(gotConns)))
-	r.Count("binary_refusals", int64(len(gotRefused)))
-	r.Count("binary_input_lines", int64(len(gotIn)))
+	r.Count("binary_connections", int64(len(g.conns)))
+	r.Count("binary_refusals", int64(len(g.refused)))
+	r.Count("binary_input_lines", int64(len(g.in)))
 	r.Distinct("binary|" + strings.Join(script, "|"))
 	if idx == 0 {
-		r.Sample("binary", map[string]any{"script": script, "log_lines": nl, "connections": fmt.Sprint(gotConns), "refusals": fmt.Sprint(gotRefused)})
+		r.Sample("binary", map[string]any{"script": script, "log_lines": g.lines, "connections": fmt.Sprint(g.conns), "refusals": fmt.Sprint(g.refused)})
 	}
 }
 
